@@ -305,6 +305,12 @@ class Real(object):
         st = b':'.join(b'K%d#=LOC(%d)' % (n, n) for n in opened)
         self.must(st)
         loc = {n: self.s.get_variable('K%d#' % n) for n in opened}
+        self.combined = None
+        if len(opened) >= 2:
+            # both positions read in one expression
+            a, b = opened[0], opened[1]
+            self.must(b'K9#=LOC(%d)+LOC(%d)*4096#' % (a, b))
+            self.combined = (a, b, self.s.get_variable('K9#'))
         st = b':'.join(b'L%d#=LOF(%d)' % (n, n) for n in opened)
         self.must(st)
         lof = {n: self.s.get_variable('L%d#' % n) for n in opened}
@@ -490,6 +496,11 @@ def _check(real, cfg, model, op, depth, viols):
         if loc[n] != s.loc:
             viols.append(('loc/wrong-after-%s/%s' % (cls, suffix),
                           'after %r LOC(%d)=%r, expected %d' % (_stmt(op, model.r, depth), n, loc[n], s.loc)))
+    if getattr(real, 'combined', None):
+        a, b, val = real.combined
+        if val != loc[a] + loc[b] * 4096:
+            viols.append(('loc/two-numbers-in-one-expression', 'after %r LOC(%d)+LOC(%d)*4096# = %r although LOC(%d)=%r and LOC(%d)=%r' % (
+                _stmt(op, model.r, depth), a, b, val, a, loc[a], b, loc[b])))
     for n in opened:
         s = after.nums[n]
         if lof[n] != after.files[s.file].lof():
